@@ -55,7 +55,7 @@ from . import c11_smooth
 from ..core import rat
 
 USES_TRANSLATOR = True          # the cosine flanks of the Tukey window (tk_rise, tk_fall) are regenerated from qats/signal.py
-ANCHOR_PREFIX = ("tk_",)
+ANCHOR_PREFIX = ("tk_", "grid_")
 
 SMOOTH_RULE = ("Smoothing / tapering stages (Lean model Qats.Smooth, Float): signal.smooth for window lengths 1..12 (odd and even) "
                "against signal lengths below / equal / just above / well above the window, five window functions; signal.taper for "
@@ -1766,6 +1766,8 @@ def run(chk):
     drv = core.Driver()
     # the concrete model of the smoothing / tapering stages against signal.smooth / signal.taper / TimeSeries.get
     c11_smooth.run_smooth(chk, drv)
+    from .gen_ties import run_grid_tie
+    run_grid_tie(chk, drv)      # regenerated argument of round() in new_timearray against the grid get(resample=d) builds
     corpus = core.load_corpus("C11")
     N = 500 if chk.quick else 8000
     lines, meta = [], []
